@@ -314,7 +314,7 @@ func (s *session) recursiveCTE(cte CTE, env *scope) (*resultSet, error) {
 	}
 	result := &resultSet{cols: working.cols, rows: append([][]Value(nil), working.rows...)}
 	for step := 0; len(working.rows) > 0; step++ {
-		if step > 100000 || len(result.rows) > 1000000 {
+		if step > 10000 || len(result.rows) > 1000000 {
 			return nil, pgError("recursive query %q did not terminate (pgmini limit)", cte.Name)
 		}
 		env.ctes[cte.Name] = working
